@@ -2,6 +2,9 @@ package bigbuff
 
 import (
 	"fmt"
+	"reflect"
+	"sort"
+	"unsafe"
 
 	"github.com/joeycumines/go-bigbuff/internal/v/vrt"
 )
@@ -159,6 +162,141 @@ func workerEarlyCheck(r *vrt.Result) string {
 	// the last instance may still be held open by nobody: its stop must be closed too at quiescence
 	if saw != starts || len(r.Leaked) > 0 {
 		return fmt.Sprintf("stop-never-closed: %d instances started but only %d stop channels were closed (still waiting: %v)", starts, saw, r.Leaked)
+	}
+	return ""
+}
+
+// ---- W-lasso: starvation as a fair cycle ---------------------------------------------------------
+
+type lasso struct {
+	w     *Workers
+	ids   map[unsafe.Pointer]int
+	phase []int // per caller: 0 idle, 1 in Call, 2 function running, 3 function finished
+}
+
+func newLasso(w *Workers, callers int) *lasso {
+	return &lasso{w: w, ids: map[unsafe.Pointer]int{}, phase: make([]int, callers)}
+}
+
+// funcID is the address of the closure object behind a func value: the Workers queue stores the
+// caller's func value unchanged, so it names the caller of a queue entry.
+func funcID(f func() (interface{}, error)) unsafe.Pointer {
+	return *(*unsafe.Pointer)(unsafe.Pointer(&f))
+}
+
+func (l *lasso) register(id int, f func() (interface{}, error)) { l.ids[funcID(f)] = id }
+
+// lassoKnownFields are the fields of Workers rendered explicitly below; any other field is
+// rendered with %v when it is of a basic kind and makes the snapshot unusable otherwise (a
+// cycle could then not be trusted to repeat).
+var lassoKnownFields = map[string]bool{"mutex": true, "cond": true, "count": true, "target": true, "queue": true}
+
+func (l *lasso) snap(taker int) {
+	w := l.w
+	xq := false
+	q := make([]int, 0, len(w.queue))
+	for _, it := range w.queue {
+		id := -1
+		if it != nil {
+			if v, ok := l.ids[funcID(it.value)]; ok {
+				id = v
+			}
+		}
+		if id == 0 {
+			xq = true
+		}
+		q = append(q, id)
+	}
+	if !xq {
+		return
+	}
+	extra := ""
+	rv := reflect.ValueOf(w).Elem()
+	for i := 0; i < rv.NumField(); i++ {
+		name := rv.Type().Field(i).Name
+		if lassoKnownFields[name] {
+			continue
+		}
+		switch f := rv.Field(i); f.Kind() {
+		case reflect.Bool, reflect.Int, reflect.Int8, reflect.Int16, reflect.Int32, reflect.Int64,
+			reflect.Uint, reflect.Uint8, reflect.Uint16, reflect.Uint32, reflect.Uint64, reflect.String:
+			extra += fmt.Sprintf(" %s=%v", name, f)
+		default:
+			vrt.Log("snap-opaque", name)
+			return
+		}
+	}
+	var hs, lib []string
+	steps := map[string]int{}
+	blocked := map[string]bool{}
+	for _, t := range vrt.Threads() {
+		if t.Finished {
+			continue
+		}
+		d := t.Op + "@" + t.Site
+		if t.Harness {
+			hs = append(hs, t.Name+":"+d)
+		} else {
+			lib = append(lib, d)
+		}
+		steps[t.Name] = t.Steps
+		switch t.Op {
+		case "chan.recv", "select", "cond.Wait(park)", "wg.Wait":
+			blocked[t.Name] = true
+		}
+	}
+	sort.Strings(lib)
+	state := fmt.Sprintf("taker=%d queue=%v count=%d target=%d locked=%v%s phase=%v harness=%v library=%v",
+		taker, q, w.count, w.target, vrt.MutexLocked(&w.mutex), extra, l.phase, hs, lib)
+	vrt.Log("snap", state, steps, blocked)
+}
+
+func lassoCheck(r *vrt.Result) string {
+	if m := baseCheck(r, true, true, true); m != "" {
+		return m
+	}
+	type snap struct {
+		seq     int64
+		steps   map[string]int
+		blocked map[string]bool
+	}
+	seen := map[string][]snap{}
+	starts, rets, waited := map[int]int{}, map[int]int{}, -1
+	for _, e := range r.Events {
+		switch e.Kind {
+		case "start":
+			starts[e.Int(0)]++
+		case "ret":
+			rets[e.Int(0)]++
+			if e.Str(1) != fmt.Sprint(e.Int(0)) || e.Str(2) != "<nil>" {
+				return fmt.Sprintf("wrong-result: a call of caller %d returned (%s, %s)", e.Int(0), e.Str(1), e.Str(2))
+			}
+		case "waited":
+			waited = e.Int(0)
+		case "snap":
+			state := e.Str(0)
+			cur := snap{e.Seq, e.Args[1].(map[string]int), e.Args[2].(map[string]bool)}
+			for _, old := range seen[state] {
+				fair := true
+				for name, n := range cur.steps {
+					if o, ok := old.steps[name]; ok && o == n && !cur.blocked[name] {
+						fair = false // a runnable thread did not move: not a fair cycle
+					}
+				}
+				if fair {
+					return fmt.Sprintf("starvation: the call of X is still queued and the state of the pool at event %d recurs at event %d with every live thread having moved (a cycle that a fair scheduler can repeat for ever): %s", old.seq, e.Seq, state)
+				}
+			}
+			seen[state] = append(seen[state], cur)
+		}
+	}
+	for id, n := range rets {
+		if starts[id] != n {
+			return fmt.Sprintf("not-exactly-once: caller %d made %d calls, its function ran %d times", id, n, starts[id])
+		}
+	}
+	if waited != 0 {
+		return fmt.Sprintf("count-after-wait: Count() = %d after Wait", waited)
 	}
 	return ""
 }
